@@ -1870,10 +1870,14 @@ class Trimesh(Geometry3D):
         -------------
         multibody : None or bool
           Fix normals across multiple bodies
-          if None automatically pick from body_count
+          if None automatically fix every face- connected body
         """
         if multibody is None:
-            multibody = self.body_count > 1
+            # `body_count` counts vertex- connected groups but bodies are
+            # face- connected groups: two solids can share a vertex.
+            # The multibody path counts the face- connected groups
+            # itself and treats a single one exactly like `multibody=False`
+            multibody = True
         repair.fix_normals(self, multibody=multibody)
 
     def fill_holes(self) -> bool:
